@@ -10,7 +10,7 @@ CONSTANTS
   MsgsSet = {0, 0, 4}
   BytesSet = {0, 0, 4}
   CompactSet = {TRUE}
-  SkewSet = {0}
+  LagSet = {0}
   BigSet = {FALSE, TRUE}
   MaxCleans = 3
   MaxTicks = 0
